@@ -69,7 +69,7 @@ Proof.
   induction 1; cbn [filter].
   - constructor.
   - destruct (f x); [constructor|]; assumption.
-  - destruct (f x), (f y); try constructor; try apply Permutation_refl. constructor. apply Permutation_refl.
+  - destruct (f x), (f y); try apply perm_swap; apply Permutation_refl.
   - eapply Permutation_trans; eassumption.
 Qed.
 
@@ -211,10 +211,10 @@ Section Facts.
     - destruct (existsb (fun item => memp item ns) inds); [|cbn; rewrite app_nil_r; reflexivity].
       rewrite names_app. f_equal.
       + unfold names. rewrite flat_map_concat_map, map_map. cbn [dnames].
-        rewrite <- (map_nth_positions (fun n => memp n inds) ns 1%positive).
+        etransitivity; [|apply (map_nth_positions (fun n => memp n inds) ns 1%positive)].
         induction (positions (fun n => memp n inds) ns) as [|k K IH]; cbn; [reflexivity|]. rewrite IH. reflexivity.
-      + rewrite <- (map_nth_positions (fun n => negb (memp n inds)) ns 1%positive).
-        destruct (positions (fun n => negb (memp n inds)) ns) as [|k [|k2 K]]; cbn; reflexivity.
+      + etransitivity; [|apply (map_nth_positions (fun n => negb (memp n inds)) ns 1%positive)].
+        destruct (positions (fun n => negb (memp n inds)) ns) as [|k [|k2 K]]; cbn; rewrite ?app_nil_r; reflexivity.
   Qed.
 
   Lemma names_unjoin inds (r : coll) : names (unjoin inds r) = flat_map (unjoin_order inds) r.
